@@ -254,6 +254,31 @@ class Assembler:
         k = fp.k_body_open + 1
         end = fp.k_body_close
         counter = [0]
+        # statements that start directly inside a `for` loop body: token index -> index of the loop's closing brace
+        starts = {}
+        for (kw, kopen) in fp.loops():
+            if not s.is_id(kw, 'for'):
+                continue
+            kclose = m[kopen]
+            q = kopen + 1
+            at_start = True
+            while q < kclose:
+                if at_start:
+                    starts[q] = kclose
+                    at_start = False
+                if s.kind(q) == 'p':
+                    c = s.s(q)
+                    if c in '([{':
+                        was_brace = (c == '{')
+                        q = m[q]
+                        if was_brace and not s.is_p(q + 1, ';') and not s.is_id(q + 1, 'else') and not s.is_p(q + 1, '.') and not s.is_p(q + 1, '?'):
+                            at_start = True
+                    elif c == ';':
+                        at_start = True
+                q += 1
+        if not hasattr(self, '_for_body_stmt_starts'):
+            self._for_body_stmt_starts = {}
+        self._for_body_stmt_starts[id(fp)] = starts
         while k < end:
             # if let Some(metrics) = ckb_metrics::handle() { ... }
             if s.is_id(k, 'if') and s.is_id(k + 1, 'let') and s.is_id(k + 2, 'Some'):
@@ -293,6 +318,23 @@ class Assembler:
                     ed.replace(s.t[k_and][1], s.t[k_and][2], '{ if')
                     ed.insert(s.t[kc][2], ' }')
                     self.fired.add('14:let-chain-to-nested-if')
+            # 16: `if COND { continue; }` as a statement directly inside a for-loop body (Verus: "for-loops do not yet support
+            # continue")  ->  `if COND { } else { <rest of the loop body> }`
+            if s.is_id(k, 'if') and not s.is_id(k - 1, 'else') and k in getattr(self, '_for_body_stmt_starts', {}).get(id(fp), {}):
+                j = k + 1
+                while j < end and not s.is_p(j, '{'):
+                    if s.kind(j) == 'p' and s.s(j) in '([':
+                        j = m[j]
+                    j += 1
+                if j < end:
+                    kc = m[j]
+                    inner = [q for q in range(j + 1, kc)]
+                    if len(inner) == 2 and s.is_id(inner[0], 'continue') and s.is_p(inner[1], ';') and not s.is_id(kc + 1, 'else'):
+                        loop_close = self._for_body_stmt_starts[id(fp)][k]
+                        ed.delete(s.t[inner[0]][1], s.t[inner[1]][2])
+                        ed.insert(s.t[kc][2], ' else {')
+                        ed.insert(s.t[loop_close][1], '} ')
+                        self.fired.add('16:continue-to-else-branch')
             # if log_enabled!(..) { .. }   (logging only)
             if s.is_id(k, 'if') and s.is_id(k + 1, 'log_enabled') and s.is_p(k + 2, '!') and s.is_p(k + 3, '('):
                 kb_ = m[k + 3] + 1
@@ -535,6 +577,17 @@ class Assembler:
                 ed.insert(s.t[kn][1], '{ ', order=1)
                 ed.insert(s.t[j - 1][2], ' }')
                 self.fired.add('3b:brace-closure-body')
+        # 15: expression abstraction -- a sub-expression Verus cannot digest (a closure capturing `&mut` state, `collect()`,
+        # `enumerate()`) is replaced by a call to an assumed-contract function declared in the unit's prelude; the replaced
+        # text is the anchor itself (token-exact), so any change to it loses the anchor (undecided), and the abstraction is
+        # listed with the assumed contracts in the evidence
+        for ab in spec.get('abstract', []):
+            ka, kb = fp.find_stmt(ab['expr'], ab.get('n', 0))
+            orig = s.text[s.t[ka][1]:s.t[kb][2]]
+            ed.replace(s.t[ka][1], s.t[kb][2], ab['as'])
+            self.assumed.append({'function': '%s :: expression `%s` abstracted as %s' % (fnname, re.sub(r'\s+', ' ', orig)[:160], ab['as'].split('(')[0].strip()),
+                                 'sha256': hashlib.sha256(re.sub(r'\s+', ' ', orig).encode()).hexdigest(), 'proved_in': None})
+            self.fired.add('15:abstract-expression')
         for nf in spec.get('nested', []):
             nitem = self.find_nested(s, fp, nf['name'])
             nfp = FnParts(nitem)
